@@ -44,7 +44,7 @@ RULE = ('8 base workflows (direct: one component consuming a data file inside it
         '(executable x arguments over concatenations of {a, executable}; ("ab","c")/("a","bc"); executable x file list '
         'with executables that contain "files<md5>:method"; image x arguments with "commandarguments" inside). '
         'thorough adds every pair of variations of two different aspect families per base and a larger ambiguity '
-        'alphabet; VERIF_SEED rotates a 1/16 stratum of those pairs into the quick tier. Every world is a separate '
+        'alphabet; VERIF_SEED rotates a 1/32 stratum of those pairs into the quick tier. Every world is a separate '
         'real instance. A case = one (parent, variant) pair, non-trivial when the two worlds differ; distinct = '
         'distinct (base, variation path); all other pairs of records are judged through the partition comparison '
         '(counted in all_pairs_judged).')
@@ -86,19 +86,21 @@ def world_table(thorough, seed):
     for bn, bw in G.bases().items():
         table.append({'wid': bn, 'parents': [], 'base': bn, 'groups': [], 'label': 'base', 'world': bw})
         singles = []
-        for group, label, w in G.variations(bn, bw):
+        for v in G.variations(bn, bw):
+            group, label, w = v[:3]
             singles.append((group, label, w))
-            table.append({'wid': '%s|%s' % (bn, label), 'parents': [bn], 'base': bn, 'groups': [group], 'label': label, 'world': w})
+            table.append({'wid': '%s|%s' % (bn, label), 'parents': ['%s|%s' % (bn, v[3]) if len(v) > 3 else bn], 'base': bn,
+                          'groups': [group], 'label': label, 'world': w})
         # second level: a variation applied to a variant (pairs of different aspect families)
         k = 0
         for g1, l1, w1 in singles:
-            for g2, l2, w2 in G.variations(bn, w1):
+            for g2, l2, w2 in (v[:3] for v in G.variations(bn, w1)):
                 if g2 == g1 or (g2, l2) <= (g1, l1):
                     continue
                 if ('%s|%s' % (bn, l2)) not in _single_ids(bn, singles):
                     continue   # a variation that only exists on the variant (keeps both parents well defined)
                 k += 1
-                if not thorough and (k + seed) % 16 != 0:
+                if not thorough and (k + seed) % 32 != 0:
                     continue
                 if not thorough and (g1 == 'missing' or g2 == 'missing'):
                     continue
@@ -136,6 +138,11 @@ def observe_world(world):
         rec.update({'h': obs[n]['strong'], 'f': obs[n]['fuzzy'], 'info': obs[n]['info'], 'info_fuzzy': obs[n]['info_fuzzy'],
                     'feat': M.features(world, n), 'exe': d._exe(c)})
         out[n] = rec
+    for n, rec in out.items():
+        rec['chain'] = {u: {'declared_exe': out[u]['exe'], 'strong_hash': out[u]['h'], 'fuzzy_hash': out[u]['f'],
+                            'info_exe': (out[u]['info'] or {}).get('command', {}).get('executable') if isinstance(out[u]['info'], dict) else None,
+                            'inputs_missing': out[u]['own_missing']}
+                        for u in rec['feat']['upstream_and_self']}
     return out
 
 
@@ -182,7 +189,7 @@ def judge_record(r):
 
 def slim(r):
     return {'strong_hash': r['h'], 'fuzzy_hash': r['f'], 'info': r['info'], 'info_fuzzy': r['info_fuzzy'], 'features': r['feat'],
-            'declared_exe': r['exe'],
+            'declared_exe': r['exe'], 'chain': r['chain'],
             'descriptor_keys': {k: r[k] for k in ('strong', 'fz_lo', 'fz_hi', 'strong_missing', 'fz_missing_direct')}}
 
 
@@ -222,7 +229,8 @@ def judge_all(col, table, results):
             col.outcome('world rejected by the loader (not judged)')
             if e['base'] != 'amb' and not e['parents']:
                 raise HarnessError('base world %s rejected: %s' % (e['wid'], recs['_rejected']))
-            col.note('not judged, loader rejects %s: %s' % (e['wid'], recs['_rejected'][:120]))
+            if len(e['parents']) <= 1:
+                col.note('not judged, the loader rejects %s: %s' % (e['wid'], ' '.join(recs['_rejected'].split())[:160]))
     reported = set()
     # ---- per record: missing inputs
     for e in table:
@@ -321,7 +329,7 @@ def _cross(col, kind, a, b, reported):
     v = judge_pair(kind, ra, rb)
     if v is None:
         raise HarnessError('partition comparison and pair judgement disagree for %s/%s vs %s/%s' % (ea['wid'], ca, eb['wid'], cb))
-    aspect = 'cross:' + '+'.join(sorted(set(ea['groups']) | set(eb['groups']))) if (ea['groups'] or eb['groups']) else 'cross:bases'
+    aspect = 'cross'
     reported.add((kind, ea['wid'], ca, eb['wid'], cb))
     col.evaluated()
     report_pair(col, kind, ea, ca, ra, eb, cb, rb, v, aspect, False)
@@ -342,7 +350,35 @@ def relation_label(kind, rp, rc):
 
 # ------------------------------------------------------------------ entry points
 def run(ctx):
+    from verif.gen.pkg import scratch_dir
+    with scratch_dir('c16-ext-') as ext_root:
+        G.EXT_ROOT = ext_root
+        try:
+            _run(ctx)
+        finally:
+            G.EXT_ROOT = None
+
+
+def self_check():
+    """the reference encoding itself must keep the classic ambiguous pairs apart"""
+    k = M.key_of
+    pairs = [(('ab', 'c'), ('a', 'bc')), (('a', ('b',)), (('a', 'b'),)), (('a', ''), ('', 'a')), ((None,), ('None',)),
+             (('executable', 'x'), ('executablex',)), ((1,), ('1',))]
+    for x, y in pairs:
+        if k(x) == k(y) or M.encode(x) == M.encode(y):
+            raise HarnessError('reference encoding is ambiguous for %r / %r' % (x, y))
+    w = G.bases()['chain']
+    d = M.Descriptors(w)
+    if d.desc('C', 'S') == d.desc('C', 'H') or d.desc('C', 'S')[0] != 'S':
+        raise HarnessError('reference descriptors: strong and fuzzy descriptor of a consumer must differ')
+
+
+def _run(ctx):
+    import time
+    self_check()
+    t0 = time.time()
     table = world_table(ctx.thorough, ctx.seed)
+    ctx.count('seconds_generating', int(time.time() - t0))
     n = len(table)
     chunk = max(1, min(40, n // (max(1, ctx.jobs) * 4) + 1))
     ctx.pmap('verif.props.c16', 'worker', [[(e['wid'], e['world']) for e in table[i:i + chunk]] for i in range(0, n, chunk)])
@@ -350,8 +386,15 @@ def run(ctx):
     ctx.payload = []
     ctx.count('worlds', n)
     ctx.count('worlds_second_level', sum(1 for e in table if len(e['parents']) == 2))
+    ctx.count('worlds_fixed_core', sum(1 for e in table if not e.get('stratum')))
     ctx.count('ambiguity_worlds', sum(1 for e in table if e['base'] == 'amb'))
     judge_all(ctx, table, results)
+    amb = [e for e in table if e['base'] == 'amb' and '_rejected' not in results[e['wid']]]
+    ctx.evaluated(len(amb) * (len(amb) - 1) // 2)     # every pair of the ambiguity alphabet (judged through the partitions)
+    for e in amb:
+        c = e['world']['comps'][0]
+        ctx.nontriv('amb|%s' % canon([c['exe'], c['args'], c['refs'], c['backend']]))
+    ctx.outcome('ambiguity alphabet: pair judged through the partitions', len(amb) * (len(amb) - 1) // 2)
     for e in table:
         if e['wid'] in ('one|produced[P/out.txt]:content', 'chain|producer[P]:exe (produced files unchanged)', 'direct|name[target]=A-B',
                         'k8s|backend=kubernetes:reg/img:2', 'one|missing[ref0]'):
@@ -362,6 +405,16 @@ def run(ctx):
 
 
 def replay(ctx, case):
+    from verif.gen.pkg import scratch_dir
+    with scratch_dir('c16-ext-') as ext_root:
+        G.EXT_ROOT = ext_root
+        try:
+            _replay(ctx, case)
+        finally:
+            G.EXT_ROOT = None
+
+
+def _replay(ctx, case):
     ea = {'wid': case['a']['wid'], 'world': case['a']['world'], 'groups': [], 'parents': []}
     ra = observe_world(ea['world'])
     if '_rejected' in ra:
@@ -386,9 +439,11 @@ def replay(ctx, case):
 
 
 # ------------------------------------------------------------------ known-finding selectors
-def _sides(f):
-    obs = f.get('observed') or {}
-    return [obs[k] for k in ('a', 'b') if k in obs]
+# A selector looks at the *case* (the two worlds) and at the *shape of the wrong observation* (the memoization_info the
+# product built, which hashes are missing / equal). Any failure with another shape stays a VIOLATION.
+import re as _re
+
+_METHODS = 'copy|link|ref|copyout|extract|output|loopref|loopoutput'
 
 
 def _parts(f):
@@ -396,4 +451,172 @@ def _parts(f):
     return s[0], s[1]
 
 
-KNOWN_SELECTORS = {}
+def _sides(f):
+    obs = f.get('observed') or {}
+    return [obs[k] for k in ('a', 'b') if k in obs]
+
+
+def _info(side, kind):
+    i = side['info'] if kind == 'strong' else side['info_fuzzy']
+    return i if isinstance(i, dict) else None
+
+
+def _hash(side, kind):
+    return side['strong_hash'] if kind == 'strong' else side['fuzzy_hash']
+
+
+def _keys_after(f, transform, kind):
+    """descriptor keys of the two components of the case after `transform(world)` was applied to copies of both worlds"""
+    out = []
+    for k in ('a', 'b'):
+        w = copy.deepcopy(f['case'][k]['world'])
+        comp = f['case'][k]['comp']
+        transform(w)
+        r = M.Descriptors(w).record(comp)
+        out.append((r['strong'],) if kind == 'strong' else (r['fz_lo'], r['fz_hi']))
+    return out
+
+
+def _sel_trailing_digit(f):
+    """blueprint_name = componentName.rstrip('0123456789'): a component whose name ends in a digit gets no hash
+    (no component of the stripped name) or is hashed with the executable of the component that has the stripped name."""
+    if f['case']['kind'] == 'missing' or len(_sides(f)) != 2:
+        return False
+    kind, shape = _parts(f)
+    hk = 'strong_hash' if kind == 'strong' else 'fuzzy_hash'
+    a, b = _sides(f)
+
+    def wrong(side):
+        # a digit-named component (the component itself or one upstream of it) shows the predicted wrong observation
+        for n, u in side['chain'].items():
+            if not n[-1:].isdigit() or u['inputs_missing']:
+                continue
+            if u[hk] is None or (u['info_exe'] is not None and u['info_exe'] != u['declared_exe']):
+                return True
+        return False
+
+    def clean(side):
+        return not any(n[-1:].isdigit() for n in side['chain'])
+    if shape == 'no-hash-but-same-work':
+        none_side, other = (a, b) if _hash(a, kind) is None else (b, a)
+        return wrong(none_side) and _hash(other, kind) is not None
+    if shape in ('differs-but-same-work', 'same-hash-but-different-work'):
+        # exactly the digit-named side is off; the other side must be free of digit names or also wrong
+        return (wrong(a) and (clean(b) or wrong(b))) or (wrong(b) and (clean(a) or wrong(a)))
+    return False
+
+
+_ABS_REF = _re.compile(r'(?:(?<=\s)|^)/[^\s:]+:(?:%s)\b' % _METHODS)
+
+
+def _sel_abs_path(f):
+    """a reference that is an absolute path is not replaced in the argument string (word-boundary pattern in front of
+    '/'), so the hash contains the location of the file: same work, different hashes"""
+    if f['case']['kind'] == 'missing' or len(_sides(f)) != 2:
+        return False
+    kind, shape = _parts(f)
+    if shape != 'differs-but-same-work':
+        return False
+    a, b = _sides(f)
+    ia, ib = _info(a, kind), _info(b, kind)
+    if ia is None or ib is None:
+        return False
+    if not (a['features']['abs_refs_in_args'] or b['features']['abs_refs_in_args']):
+        return False
+    aa, ab = ia['command']['arguments'], ib['command']['arguments']
+    if not (_ABS_REF.search(aa) or _ABS_REF.search(ab)):
+        return False
+    # the two descriptions differ ONLY in such left-over paths (a replaced reference reads file:<md5>:<method>)
+    norm = lambda s: _re.sub(r'file:[0-9a-f]{32}:(%s)' % _METHODS, 'REF', _ABS_REF.sub('REF', s))
+    ia2 = copy.deepcopy(ia); ib2 = copy.deepcopy(ib)
+    ia2['command']['arguments'] = norm(aa); ib2['command']['arguments'] = norm(ab)
+    ia2['files'] = sorted(ia2['files']); ib2['files'] = sorted(ib2['files'])
+    return ia2 == ib2
+
+
+def _drop_dir_refs_outside_args(w):
+    for c in w['comps']:
+        used = set(p['r'] for p in c['args'] if isinstance(p, dict) and 'r' in p)
+        keep = [i for i, r in enumerate(c['refs']) if not (r['prod'] is not None and r['path'] is None and i not in used)]
+        remap = {old: new for new, old in enumerate(keep)}
+        c['refs'] = [c['refs'][i] for i in keep]
+        c['args'] = [{'r': remap[p['r']]} if isinstance(p, dict) and 'r' in p else p for p in c['args']]
+
+
+def _sel_dir_ref_outside_arguments(f):
+    """a :copy/:link reference to the working directory of a producer that is not mentioned in the arguments leaves
+    no trace in the hash: different producers / methods, same hash"""
+    if f['case']['kind'] == 'missing' or len(_sides(f)) != 2:
+        return False
+    kind, shape = _parts(f)
+    if shape != 'same-hash-but-different-work':
+        return False
+    a, b = _sides(f)
+    if not (a['features']['dir_refs_not_in_args'] or b['features']['dir_refs_not_in_args']):
+        return False
+    if _info(a, kind) is None or _info(a, kind) != _info(b, kind):
+        return False
+    ka, kb = _keys_after(f, _drop_dir_refs_outside_args, kind)
+    return ka == kb
+
+
+def _docker_image_dropped(w):
+    for c in w['comps']:
+        if (c.get('backend') or {}).get('kind') == 'docker':
+            c['backend'] = None
+
+
+def _sel_docker_image(f):
+    """postprocess_backend() only knows kubernetes and lsf: the image of the docker backend is not part of the hash"""
+    if f['case']['kind'] == 'missing' or len(_sides(f)) != 2:
+        return False
+    kind, shape = _parts(f)
+    a, b = _sides(f)
+    dock = [s for s in (a, b) if s['features']['backend'] == 'docker' or
+            any(True for _ in ())]
+    worlds_have_docker = any((c.get('backend') or {}).get('kind') == 'docker' for k in ('a', 'b') for c in f['case'][k]['world']['comps'])
+    if not worlds_have_docker:
+        return False
+    for s in dock:
+        i = _info(s, kind)
+        if i is None or i.get('backend') != {}:
+            return False
+    ka, kb = _keys_after(f, _docker_image_dropped, kind)
+    if shape == 'same-hash-but-different-work':
+        return ka == kb
+    if shape == 'differs-but-same-work':
+        return ka != kb and None not in ka and None not in kb
+    return False
+
+
+def _concat(obj):
+    if isinstance(obj, dict):
+        return ''.join(str(k) + _concat(obj[k]) for k in sorted(obj))
+    if isinstance(obj, list):
+        return ''.join(_concat(x) for x in sorted(obj))
+    return str(obj)
+
+
+def _sel_serialisation(f):
+    """_memoization_info_to_hash concatenates keys and values without separators: two DIFFERENT descriptions whose
+    concatenations coincide get the same hash"""
+    if f['case']['kind'] == 'missing' or len(_sides(f)) != 2:
+        return False
+    kind, shape = _parts(f)
+    if shape != 'same-hash-but-different-work':
+        return False
+    a, b = _sides(f)
+    ia, ib = _info(a, kind), _info(b, kind)
+    if ia is None or ib is None:
+        return False
+    na = dict(ia, files=sorted(ia['files'])); nb = dict(ib, files=sorted(ib['files']))
+    return na != nb and _concat(na) == _concat(nb)
+
+
+KNOWN_SELECTORS = {
+    'component_name_ends_in_digit': _sel_trailing_digit,
+    'absolute_path_reference_not_replaced': _sel_abs_path,
+    'directory_reference_outside_arguments_ignored': _sel_dir_ref_outside_arguments,
+    'docker_image_not_hashed': _sel_docker_image,
+    'serialisation_without_separators': _sel_serialisation,
+}
